@@ -55,7 +55,7 @@ CHECKS = {
          'All sources of length 0..4 (thorough 6) over falsy/duplicate values as list / range / generator / iterator (to_async_iter) and async generator (to_sync_iter, loop=None and a given loop), failure at every position or none, producer step durations and consumer pauses {0, D}; every interleaving with <= 2-3 (thorough 3-4) preemptions of the producer thread lines with the consumer; oracle: sequence == source prefix then StopIteration or the same exception instance, a ticker task keeps ticking while the producer sleeps, no helper thread alive at the end.',
          'one aiuti source line / stdlib call atomic, with explicit scheduling points where the pool worker returns and resolves its future.', '3/C16'),
  'C17': ('tx', 'stateless model checking of the implementation: exhaustive thread-interleaving exploration with bounded preemptions and bounded non-default switches at blocking points; deadlock detector',
-         'Worlds: target loop idle / running via loop_in_thread / own / closed; 1..3 caller threads doing ensure_aw or run_aw_threadsafe with coroutine / Future / Task awaitables that return, raise, sleep {0, D} on the target; loop_in_thread racing ensure_aw on a fresh loop; owner stopping early; every schedule with <= 1 (thorough 2) preemptions and <= 1 (thorough 2) non-default choices at blocking points; oracle: identical result/exception object, evaluated on the target loop, never two runners of one loop, loop_in_thread/stop post-conditions, every caller completes (deadlock detector). One known finding (ensure_aw stranded on a loop borrowed by another ensure_aw) is listed in known_findings.json.',
+         'Worlds: target loop idle / running via loop_in_thread / own / closed; 1..3 caller threads doing ensure_aw or run_aw_threadsafe with coroutine / Future / Task awaitables that return, raise, sleep {0, D} on the target; loop_in_thread racing ensure_aw on a fresh loop; owner stopping early; every schedule with (preemptions, non-default choices at blocking points) <= (1,1) quick; thorough (2,1) and (1,2); oracle: identical result/exception object, evaluated on the target loop, never two runners of one loop, loop_in_thread/stop post-conditions, every caller completes (deadlock detector).',
          '5-7 controlled threads per world make unbounded free switches infeasible: the second bound is reported; awaitables stranded because the OWNER stopped the loop are not judged.', '3/C17'),
  'C18': ('sq', 'exhaustive DFS over all pull interleavings of the two result iterators against a list-comprehension reference',
          'All sources of length 0..4 (thorough 6) over a 3-value domain as list / one-shot iterator x all truth-table callables, stateful callables, boolean lists/iterators shorter/equal/longer x EVERY interleaving of next() on the two results; each prefix compared with the reference partition, predicate call log and source pull count; exhaust() too.',
